@@ -137,3 +137,41 @@ func allocDelta(f func()) uint64 {
 	runtime.ReadMemStats(&m1)
 	return m1.TotalAlloc - m0.TotalAlloc
 }
+
+// decodeSession reads up to n packets from one Reader (initial version v0)
+// under the watchdog; it stops at the first error.
+func decodeSession(stream []byte, v0 mqttx.Version, n int) (pkts []packets.Packet, err error, panicked any, hung bool) {
+	type out struct {
+		pkts []packets.Packet
+		err  error
+		pan  any
+	}
+	rd := packets.NewReader(bufio.NewReaderSize(bytes.NewReader(stream), 4096))
+	rd.SetVersion(byte(v0))
+	ch := make(chan out, 1)
+	go func() {
+		var o out
+		defer func() {
+			if x := recover(); x != nil {
+				o.pan = x
+			}
+			ch <- o
+		}()
+		for i := 0; i < n; i++ {
+			p, err := rd.ReadPacket()
+			if err != nil {
+				o.err = err
+				return
+			}
+			o.pkts = append(o.pkts, p)
+		}
+	}()
+	t := time.NewTimer(hangTimeout)
+	defer t.Stop()
+	select {
+	case o := <-ch:
+		return o.pkts, o.err, o.pan, false
+	case <-t.C:
+		return nil, nil, nil, true
+	}
+}
